@@ -280,6 +280,14 @@ class Interp:
                     self.assign(t, v, env)
         elif isinstance(target, ast.Subscript):
             base = self.ev(target.value, env)
+            if isinstance(target.slice, ast.Slice):
+                sl = target.slice
+                idx = slice(self.ev(sl.lower, env) if sl.lower is not None else None, self.ev(sl.upper, env) if sl.upper is not None else None,
+                            self.ev(sl.step, env) if sl.step is not None else None)
+                if not isinstance(base, list):
+                    raise AnalysisError(f"absint: unsupported slice store {src(target)}")
+                base[idx] = list(value) if not isinstance(value, list) else value
+                return
             idx = self.ev(target.slice, env)
             if isinstance(base, (list, dict)):
                 base[idx] = value
